@@ -230,5 +230,37 @@ theorem vsQuery_model (s : State (NV K)) (fuel n : Nat) (hv : VS s n) (hrun : s.
   rw [queryP_emb, queryP_eq_query hb]
   rfl
 
+theorem rotL_emb (S : K) (t : Viewshed.Tree K) : rotL (emb S) (mapT emb t) = mapT emb (rotL S t) := by
+  cases t with
+  | nil => rfl
+  | node xl xn xm xc r =>
+    cases r with
+    | nil => rfl
+    | node yl yn ym yc yr =>
+      simp only [mapT, rotL, recomp, recompM, mxOf_emb, minv_emb, mx2_emb]
+
+theorem rotR_emb (S : K) (t : Viewshed.Tree K) : rotR (emb S) (mapT emb t) = mapT emb (rotR S t) := by
+  cases t with
+  | nil => rfl
+  | node l yn ym yc yr =>
+    cases l with
+    | nil => rfl
+    | node xl xn xm xc xr =>
+      simp only [mapT, rotR, recomp, recompM, mxOf_emb, minv_emb, mx2_emb]
+
+theorem mapT_emb_injective : ∀ (t u : Viewshed.Tree K), mapT emb t = mapT emb u → t = u := by
+  intro t
+  induction t with
+  | nil => intro u h; cases u <;> simp_all [mapT]
+  | node l n mx c r ihl ihr =>
+    intro u h
+    cases u with
+    | nil => simp [mapT] at h
+    | node l' n' mx' c' r' =>
+      simp only [mapT, Tree.node.injEq, mapN, Node.mk.injEq, emb, Fv.mk.injEq, Option.some.injEq] at h
+      obtain ⟨h1, h2, h3, h4, h5⟩ := h
+      cases n; cases n'
+      simp_all [ihl _ h1, ihr _ h5]
+
 end field
 end XrsVerif.ILVs
